@@ -312,10 +312,10 @@ Proof.
         destruct H as (new & Hl & Hf & Hc' & Hp').
         exists new. split; auto. rewrite app_nil_r in Hf.
         assert (Ecr : (c =? CR) = false) by (destruct (c =? CR); auto; discriminate).
-        rewrite Ecr in Hf. rewrite Hf. auto.
+        rewrite Ecr in Hf. unfold bytes, byte in *. rewrite Hf. auto.
     + apply IH in H; auto.
       * destruct H as (new & Hl & Hf & Hc' & Hp').
-        exists new. split; auto. rewrite <- app_assoc in Hf. rewrite Hf. auto.
+        exists new. split; auto. rewrite <- app_assoc. unfold bytes, byte in *. rewrite Hf. auto.
       * apply Forall_app; split; auto.
       * discriminate.
 Qed.
@@ -339,7 +339,7 @@ Proof.
     apply t_scan_feed in Es; auto; [|constructor].
     destruct Es as (new & Hl & Hf & Hc & _). cbn in Hl. subst new. rewrite app_nil_r in Hf.
     exists x. split; auto. split; auto. cbn [tr_text tr_cr].
-    rewrite Hf. f_equal.
+    unfold bytes, byte in *. rewrite Hf. f_equal.
     + f_equal. destruct cur; [now rewrite app_nil_r|]. now rewrite cstr_id.
     + destruct lines; cbn; [reflexivity|now rewrite app_nil_r].
 Qed.
@@ -358,7 +358,7 @@ Proof.
   induction bs as [|c t IH]; intros st st' o Hi H; cbn [t_feed] in H.
   - inversion H; subst; auto.
   - destruct (t_byte st c) as [st1 o1] eqn:Eb. destruct (t_feed st1 t) as [st2 o2] eqn:Ef.
-    inversion H; subst. eapply IH; eauto. eapply t_byte_inv; eauto.
+    inversion H; subst. apply (IH st1 st' o2); auto. apply (t_byte_inv st c st1 o1); auto.
 Qed.
 
 (* ---- decoding terminated lines *)
